@@ -47,6 +47,9 @@ func ruleC15(c *Check) {
 				ok := name == "MsgDefineService" && e.Op == "Set"
 				if ok {
 					_, nf := hasFact(e.Guards, fmt.Sprintf("(res 1 (%s %s))", gDef.Name, en.Field("Name")), true)
+					if !nf {
+						_, nf = c.recordExistence(e.Guards, "0x01", []string{en.Field("Name")})
+					}
 					ok = nf
 				}
 				c.req(ok, "C15.1", effConstruct(name, e), e.Pos, "a definition is stored only by the define message, under 'no definition with this name exists'")
@@ -164,6 +167,8 @@ func ruleC15(c *Check) {
 	c.pricingTextPairs("C15.6")
 	// genesis setter covers create's families
 	c.genesisBindingSetter("C15.7")
+	// every stored binding satisfies the module's own validity rules: the values the module itself stores are accepted by the record validator
+	c.storedValuesValidate("C15.2")
 	c.keyGrammar("C15.8", map[string]bool{"0x01": true, "0x02": true, "0x03": true, "0x04": true, "0x05": true, "0x06": true})
 }
 
@@ -297,7 +302,7 @@ func (c *Check) setterKeys(rule string) {
 			c.req(okk, rule, unitConstruct(f, "key-of-own-fields:"+e.Family), e.Pos, "the record is stored under the key built from its own fields: "+fmtTerms(k))
 		}
 	}
-	c.req(n >= 3, rule, "setters", token.NoPos, fmt.Sprintf("%d record setters keyed by the record's own fields", n))
+	c.req(n >= 2, rule, "setters", token.NoPos, fmt.Sprintf("%d record setters keyed by the record's own fields", n))
 }
 
 func (c *Check) genesisBindingSetter(rule string) {
@@ -418,8 +423,20 @@ func (c *Check) signatureOf(f *Func) querySig {
 		}
 	}
 	// parameter / schema queries: distinguish by the module functions they call
-	for _, g := range c.P.callees(f) {
-		if g.pkgName() == "keeper" && g.Obj != nil && (strings.HasSuffix(g.Name, ".GetParams")) {
+	reach := map[*Func]bool{}
+	var visit func(g *Func, d int)
+	visit = func(g *Func, d int) {
+		if g == nil || reach[g] || d > 3 {
+			return
+		}
+		reach[g] = true
+		for _, h := range c.P.callees(g) {
+			visit(h, d+1)
+		}
+	}
+	visit(f, 0)
+	for g := range reach {
+		if g != f && g.pkgName() == "keeper" && g.Obj != nil && (strings.HasSuffix(g.Name, ".GetParams")) {
 			set["call:"+g.Name] = true
 		}
 	}
@@ -468,13 +485,31 @@ func ruleC17(c *Check) {
 		return
 	}
 	seen := map[*Func]bool{}
-	for _, f := range c.P.Funcs {
-		if f.Parent != nq {
-			continue
+	// the dispatcher is the function value NewQuerier returns (a literal, a named function or a bound method);
+	// its routes are the keeper-package functions it calls that are not methods of the keeper itself
+	var dispatchers []*Func
+	for _, pa := range c.P.PathsOf(nq) {
+		if len(pa.Ret) == 1 {
+			r := stripConv(pa.Ret[0])
+			if r.Is("func") && len(r.A) >= 1 {
+				if g := c.P.FuncNamed(r.A[0].At); g != nil && g.Body != nil {
+					dispatchers = append(dispatchers, g)
+				}
+			}
 		}
+	}
+	if len(dispatchers) == 0 {
+		for _, f := range c.P.Funcs {
+			if f.Parent == nq {
+				dispatchers = append(dispatchers, f)
+			}
+		}
+	}
+	for _, f := range dispatchers {
 		for _, pa := range c.P.PathsOf(f) {
 			for _, ev := range pa.Events {
-				if ev.Kind == EvCall && ev.CI.fn != nil && ev.CI.fn.pkgName() == "keeper" && ev.CI.fn.Recv == nil && !seen[ev.CI.fn] {
+				if ev.Kind == EvCall && ev.CI.fn != nil && ev.CI.fn.pkgName() == "keeper" && ev.CI.fn.Body != nil &&
+					(ev.CI.fn.Recv == nil || !isKeeperType(ev.CI.fn.Recv.Type())) && !seen[ev.CI.fn] {
 					seen[ev.CI.fn] = true
 					legacy = append(legacy, c.signatureOf(ev.CI.fn))
 				}
@@ -541,6 +576,61 @@ func ruleC17(c *Check) {
 	}
 	c.keyGrammar("C17.5", map[string]bool{"0x02": true, "0x03": true, "0x13": true, "0x14": true, "0x16": true, "0x18": true})
 	c.queryIndexMaintained("C17.6")
+	c.enumTables("C17.7")
+}
+
+// recordExistence: what the facts establish about the presence of the record of a family under the given key
+// arguments — read through a getter's found flag or directly from the store (Get compared with nil, Has).
+func (c *Check) recordExistence(fs FactSet, fam string, args []string) (exists, absent bool) {
+	keyMatches := func(k *Term) bool {
+		for _, v := range c.P.keyVariants(k, 0) {
+			f2, _ := c.P.keyFamily(v.Key)
+			if f2 != fam {
+				return false
+			}
+			ka := stripConv(stripSpread(v.Key)).A
+			if len(ka) != len(args) {
+				return false
+			}
+			for i := range ka {
+				if ka[i].String() != args[i] {
+					return false
+				}
+			}
+			return true
+		}
+		return false
+	}
+	for _, f := range fs {
+		t := f.T
+		switch {
+		case t.Op == "==" && len(t.A) == 2 && t.A[1].IsAt("#nil") && strings.HasSuffix(stripConv(t.A[0]).Op, "KVStore.Get"):
+			g := stripConv(t.A[0])
+			if len(g.A) >= 1 && keyMatches(g.A[len(g.A)-1]) {
+				if f.Neg {
+					exists = true
+				} else {
+					absent = true
+				}
+			}
+		case strings.HasSuffix(t.Op, "KVStore.Has") && len(t.A) >= 1 && keyMatches(t.A[len(t.A)-1]):
+			if f.Neg {
+				absent = true
+			} else {
+				exists = true
+			}
+		case t.Op == "nonempty" && len(t.A) == 1 && strings.HasSuffix(stripConv(t.A[0]).Op, "KVStore.Get"):
+			g := stripConv(t.A[0])
+			if len(g.A) >= 1 && keyMatches(g.A[len(g.A)-1]) {
+				if f.Neg {
+					absent = true
+				} else {
+					exists = true
+				}
+			}
+		}
+	}
+	return
 }
 
 // queryIndexMaintained: the owner-filtered binding list is answered from the owner index (family 0x03), so it
